@@ -272,6 +272,9 @@ pub struct Task {
     pub kill_pending: bool,
     pub started: bool,
     pub ops: u64,
+    /// > 0 while the task is inside an interposed C-library call (see interpose.rs): frames that
+    /// cannot be unwound through, so the task is abandoned rather than unwound when killed
+    pub foreign_depth: u32,
 }
 
 pub struct Proc {
@@ -742,8 +745,7 @@ impl World {
             end: None,
             kill_pending: false,
             started: false,
-            ops: 0,
-        });
+            ops: 0, foreign_depth: 0 });
         self.procs[proc].tasks.push(id);
         if is_main {
             self.procs[proc].main_task = Some(id);
@@ -1409,6 +1411,72 @@ pub fn wall_now() -> i128 {
     })
 }
 
+/// Interposed `clock_gettime`: the simulated clocks for code that reaches the C library without
+/// passing a source-level seam. No scheduling point (the caller's frames cannot be unwound), but
+/// a wall-clock reading is recorded like any other. None outside a task.
+pub fn intercepted_clock(realtime: bool) -> Option<i128> {
+    if std::thread::panicking() {
+        return None;
+    }
+    try_with(|w| {
+        w.current?;
+        if realtime {
+            let v = w.wall_now();
+            w.record(Ev::ClockRead { wall_ns: v });
+            Some(v)
+        } else {
+            Some(w.now as i128)
+        }
+    })
+    .flatten()
+}
+
+/// Interposed `exit`: the simulated process ends with `code`; the calling task is parked for good
+/// (its frames cannot be unwound: it is abandoned when the scheduler comes to kill it, like the
+/// stack of a thread of a process that has exited). Returns only outside a task.
+pub fn intercepted_exit(code: i32) {
+    if std::thread::panicking() || !in_task() {
+        return;
+    }
+    with(|w| {
+        let t = w.current.unwrap();
+        w.tasks[t].foreign_depth += 1;
+        let p = w.cur_proc();
+        w.terminate_proc(p, code, "exit");
+    });
+    loop {
+        // never runnable again; the scheduler abandons the task instead of resuming it to die
+        block_on(Wait::Sleep, None);
+    }
+}
+
+/// The same without a history record (deadline arithmetic of an absolute sleep).
+pub fn intercepted_clock_peek(realtime: bool) -> Option<i128> {
+    if std::thread::panicking() {
+        return None;
+    }
+    try_with(|w| {
+        w.current?;
+        Some(if realtime { w.wall_now() } else { w.now as i128 })
+    })
+    .flatten()
+}
+
+/// Interposed `nanosleep` / `clock_nanosleep`: sleeps in simulated time. Returns false outside a task.
+pub fn intercepted_sleep(ns: u64) -> bool {
+    if std::thread::panicking() || !in_task() {
+        return false;
+    }
+    with(|w| {
+        let t = w.current.unwrap();
+        w.tasks[t].foreign_depth += 1;
+    });
+    let me = with(|w| w.current.unwrap());
+    sleep(Duration::from_nanos(ns));
+    with(|w| w.tasks[me].foreign_depth = w.tasks[me].foreign_depth.saturating_sub(1));
+    true
+}
+
 /// Wall clock without a scheduling point or a history record (for log timestamps etc.)
 pub fn wall_peek() -> i128 {
     with(|w| w.wall_now())
@@ -1775,6 +1843,10 @@ fn resume_task_quiet(cos: &mut [Option<Co>], t: TaskId) {
     if co.done() {
         return;
     }
+    if with(|w| w.tasks[t].foreign_depth > 0) {
+        abandon(cos, t);
+        return;
+    }
     with(|w| w.current = Some(t));
     YIELDERS.with(|ys| YIELDER.with(|c| c.set(ys.borrow()[t])));
     loop {
@@ -1792,7 +1864,28 @@ fn resume_task_quiet(cos: &mut [Option<Co>], t: TaskId) {
     });
 }
 
+/// A task suspended inside a frame that cannot be unwound (an interposed C-library call) is
+/// not killed by unwinding: its stack is leaked, as the stack of a thread of a process that
+/// exits is. Destructors do not run (a mutex it holds stays locked).
+fn abandon(cos: &mut [Option<Co>], t: TaskId) {
+    if let Some(co) = cos.get_mut(t).and_then(|c| c.take()) {
+        std::mem::forget(co);
+    }
+    with(|w| {
+        w.tasks[t].state = TState::Done;
+        w.tasks[t].kill_pending = false;
+        if w.tasks[t].end.is_none() {
+            w.tasks[t].end = Some(TaskEnd::Killed);
+            w.record(Ev::TaskEnd { task: t, how: "killed".to_string() });
+        }
+    });
+}
+
 fn resume_task(cos: &mut [Option<Co>], t: TaskId, how: Resume) {
+    if matches!(how, Resume::Kill) && with(|w| w.tasks[t].foreign_depth > 0) && cos.get(t).map(|c| c.is_some()).unwrap_or(false) {
+        abandon(cos, t);
+        return;
+    }
     let co = match cos.get_mut(t).and_then(|c| c.as_mut()) {
         Some(c) => c,
         None => {
